@@ -2,6 +2,9 @@ package rv
 
 import (
 	"fmt"
+	"go/ast"
+	"go/constant"
+	"regexp"
 	"go/token"
 	"strings"
 
@@ -11,7 +14,7 @@ import (
 func init() {
 	Registry["C38"] = RuleDef{Module: "rueidislimiter", Run: runC38,
 		Technique:   "guard/def-use rules over the SSA of AllowN: what the admission flag, the remaining count and the reset time are computed from; delegation constants of Check/Allow; single atomic server round trip",
-		Explanation: "Decides the client-side arithmetic only: (R38a) Result.Allowed can be true only on the path where the counter value returned by the script (first reply element) is <= the limit of the option in effect, and for n = 0 only when it is < the limit; Remaining is max(limit - counter, 0) and ResetAtMs the second reply element; (R38b) Check delegates with n = 0 and Allow with n = 1 to AllowN, which rejects negative n before any request; (R38c) each AllowN performs exactly one script execution (the counter read-modify-write is a single atomic server-side step), its first argument being the decimal n and its keys the identifier's counter key and that key + \":ex\"; (R38d) the constructor rejects non-positive limits and windows.",
+		Explanation: "Decides the client-side arithmetic only: (R38a) Result.Allowed can be true only on the path where the counter value returned by the script (first reply element) is <= the limit of the option in effect, and for n = 0 only when it is < the limit; Remaining is max(limit - counter, 0) and ResetAtMs the second reply element; (R38b) Check delegates with n = 0 and Allow with n = 1 to AllowN, which rejects negative n before any request; (R38c) each AllowN performs exactly one script execution (the counter read-modify-write is a single atomic server-side step), its first argument being the decimal n and its keys the identifier's counter key and that key + \":ex\"; (R38d) the constructor rejects non-positive limits and windows; (R38e) in the embedded script text the counter key and the window marker are created with the same absolute expiry and the counter is advanced by exactly one INCRBY of ARGV[1] (a lint over the script source, not an analysis of Lua semantics).",
 		NotDecided:  "the Lua script itself and Redis' atomic execution of it (the heart of 'never more than the limit'), window arithmetic against the server clock, concurrent callers."}
 }
 
@@ -194,6 +197,32 @@ func runC38(r *Report) {
 		okK := len(keys) == 2 && keys[0] != keys[1]
 		r.Ob("R38c", fn, "two-distinct-keys", fn.Pos(), okK, "the script gets the counter key and the distinct expiry key")
 	}
+	// R38e the embedded script: the counter and the window marker are created together with the same
+	// expiry (a counter that expires before its marker restarts from 0 inside a window that is still
+	// reported as current), and the counter is advanced by one INCRBY of the requested amount
+	{
+		src := pkgVarCallStringArg(r.P, "rueidis/rueidislimiter", "rateLimitScript")
+		if r.Anchor("R38e", "rate limit script source", src != "") {
+			re := regexp.MustCompile(`redis\.call\(\s*"set"\s*,\s*([A-Za-z_\[\]0-9]+)\s*,\s*[^,]+,\s*"pxat"\s*,\s*([^)]+)\)`)
+			ms := re.FindAllStringSubmatch(src, -1)
+			exp := map[string]string{}
+			for _, m := range ms {
+				exp[m[1]] = strings.Join(strings.Fields(m[2]), "")
+			}
+			same := len(exp) == 2
+			var first string
+			for _, e := range exp {
+				if first == "" {
+					first = e
+				} else if e != first {
+					same = false
+				}
+			}
+			r.Ob("R38e", nil, "counter-and-window-marker-expire-together", token.NoPos, same, fmt.Sprintf("the script creates the counter key and the window marker with the same absolute expiry: %v", exp))
+			incr := regexp.MustCompile(`redis\.call\(\s*"incrby"\s*,\s*rate_limit_key\s*,\s*increment_amount\s*\)`).FindAllString(src, -1)
+			r.Ob("R38e", nil, "single-increment-by-requested-amount", token.NoPos, len(incr) == 1 && strings.Contains(src, "tonumber(ARGV[1])"), "the script advances the counter exactly once, by ARGV[1]")
+		}
+	}
 	for _, d := range []struct {
 		name string
 		n    int64
@@ -230,4 +259,38 @@ func runC38(r *Report) {
 		}
 		r.Ob("R38d", f, "non-positive-limit-and-window-rejected", f.Pos(), lim && win, "the constructor refuses a limit or window <= 0")
 	}
+}
+
+// pkgVarCallStringArg returns the constant string passed as first argument in the initialiser
+// `var <name> = f("...")` of a package-level variable.
+func pkgVarCallStringArg(p *Prog, pkgShort, name string) string {
+	pkg := p.Pkg(pkgShort)
+	if pkg == nil {
+		return ""
+	}
+	for _, f := range pkg.Syntax {
+		for _, d := range f.Decls {
+			gd, ok := d.(*ast.GenDecl)
+			if !ok {
+				continue
+			}
+			for _, sp := range gd.Specs {
+				vs, ok := sp.(*ast.ValueSpec)
+				if !ok {
+					continue
+				}
+				for i, n := range vs.Names {
+					if n.Name != name || i >= len(vs.Values) {
+						continue
+					}
+					if ce, ok := vs.Values[i].(*ast.CallExpr); ok && len(ce.Args) > 0 {
+						if tv, ok := pkg.TypesInfo.Types[ce.Args[0]]; ok && tv.Value != nil && tv.Value.Kind() == constant.String {
+							return constant.StringVal(tv.Value)
+						}
+					}
+				}
+			}
+		}
+	}
+	return ""
 }
